@@ -51,6 +51,7 @@ theorem isclose_one_iff (ε : K) (hε : 0 ≤ ε) (s : K) :
       · exact Or.inl (Or.inr h1)
       · exact Or.inl (Or.inl h2)
 
+omit [LinearOrder K] [IsStrictOrderedRing K] in
 theorem foldl_add_eq (ps : List K) (acc : K) : ps.foldl (· + ·) acc = acc + ps.sum := by
   induction ps generalizing acc with
   | nil => simp
@@ -147,10 +148,10 @@ theorem initDecision_of_check (ε : K) (n k : Nat) (hn : 1 ≤ n) (hk : 1 ≤ k)
     simp only [List.replicate_succ]
     have hpos : (2 : Nat) ^ n ≠ 0 := Nat.pos_iff_ne_zero.1 (Nat.two_pow_pos n)
     simp only [hpos, if_false, isPow2Pos_two_pow hn, Bool.not_true, Bool.false_eq_true, numQubits,
-      clog2_two_pow, List.length_cons, List.length_replicate]
+      clog2_two_pow]
 
 /-- the uniform default is a probability vector (exactly: tolerance 0 suffices) -/
-theorem uniform_valid (ε : K) (hε : 0 ≤ ε) (k : Nat) (hk : 1 ≤ k) :
+theorem uniform_valid (ε : K) (k : Nat) (hk : 1 ≤ k) :
     checkProbs (fieldVOps K ε) k none = .ok (List.replicate k (1 / (k : K)))
       ∧ (∀ p ∈ List.replicate k (1 / (k : K)), 0 ≤ p ∧ p ≤ 1)
       ∧ (List.replicate k (1 / (k : K))).sum = 1 := by
